@@ -73,7 +73,19 @@ def gen(rng):
     else:
         steps.append(['l', p, '..'])
     via = rng.random() < 0.3
-    if via:
+    if via and rng.random() < 0.5:
+        # the symlinked directory is NOT the direct parent: a real directory lies between it and the link
+        steps.append(['d', wd + '/realsub', 0o755])
+        # move the link under realsub
+        for st_ in steps:
+            if st_[0] == 'l' and st_[1] == p:
+                st_[1] = wd + '/realsub/' + nm
+                if not st_[2].startswith('/') and st_[2] not in (nm,):
+                    st_[2] = '../' + st_[2]
+        p = wd + '/realsub/' + nm
+        steps.append(['l', home + '/viaw', wd])
+        arg = home + '/viaw/realsub/' + nm
+    elif via:
         steps.append(['l', home + '/viaw', wd])
         arg = home + '/viaw/' + nm
     else:
